@@ -208,8 +208,16 @@ func edgeFacts(b *ssa.BasicBlock, i int) []Fact {
 type edgePred func(b *ssa.BasicBlock, succ int) bool
 
 // factCut builds an edge predicate: the edge is cut if any of its facts satisfies p.
+// factCutProbe: a cut built by factCut hands out its fact predicate when called with a nil block,
+// so that reachFromEdge can use the Phi-aware traversal (reachFromEdgeP) for it.
+var factCutProbe func(Fact) bool
+
 func factCut(p func(Fact) bool) edgePred {
 	return func(b *ssa.BasicBlock, i int) bool {
+		if b == nil {
+			factCutProbe = p
+			return false
+		}
 		for _, f := range edgeFacts(b, i) {
 			if p(f) {
 				return true
@@ -363,6 +371,14 @@ func knownNonNilOnEdge(fn *ssa.Function, v ssa.Value, at, to *ssa.BasicBlock) bo
 
 // reachFromEdge: blocks reachable starting with the edge b->succ[i].
 func reachFromEdge(b *ssa.BasicBlock, i int, cut edgePred) map[*ssa.BasicBlock]bool {
+	if cut != nil {
+		factCutProbe = nil
+		cut(nil, -1)
+		if p := factCutProbe; p != nil {
+			factCutProbe = nil
+			return reachFromEdgeP(b, i, p)
+		}
+	}
 	return reach(b.Succs[i], cut)
 }
 
@@ -1006,4 +1022,104 @@ func lenFact(f Fact) (ssa.Value, string) {
 		return l, "nonempty"
 	}
 	return nil, ""
+}
+
+// reachFromEdgeP: blocks reachable from edge b->Succs[i] without traversing an edge that carries
+// a fact satisfying p - like reachFromEdge(b, i, factCut(p)), but aware of materialised boolean
+// conditions: for `t := A || B; if t && C {...}` the block testing t is entered both from "A true"
+// and from "B evaluated". If the "A true" edge is itself cut, t can only be B there, and the true
+// edge of t carries B's facts. Operands are considered only for predecessor edges that were
+// actually traversed (least fix-point).
+func reachFromEdgeP(b *ssa.BasicBlock, i int, p func(Fact) bool) map[*ssa.BasicBlock]bool {
+	type edge struct {
+		from *ssa.BasicBlock
+		idx  int
+	}
+	trav := map[edge]bool{{b, i}: true}
+	seen := map[*ssa.BasicBlock]bool{}
+	cutEdge := func(blk *ssa.BasicBlock, si int) bool {
+		for _, f := range edgeFacts(blk, si) {
+			if p(f) {
+				return true
+			}
+		}
+		if len(blk.Instrs) == 0 {
+			return false
+		}
+		iff, ok := blk.Instrs[len(blk.Instrs)-1].(*ssa.If)
+		if !ok || len(blk.Succs) != 2 || blk.Succs[0] == blk.Succs[1] {
+			return false
+		}
+		truth := si == 0
+		cond := iff.Cond
+		for {
+			u, isNot := cond.(*ssa.UnOp)
+			if !isNot || u.Op != token.NOT {
+				break
+			}
+			cond, truth = u.X, !truth
+		}
+		phi, ok := cond.(*ssa.Phi)
+		if !ok || phi.Block() != blk || !isBoolT(phi.Type()) {
+			return false
+		}
+		nTrav, nCand := 0, 0
+		allAccepted := true
+		for j, pred := range blk.Preds {
+			traversed := false
+			for k, sb := range pred.Succs {
+				if sb == blk && trav[edge{pred, k}] {
+					traversed = true
+				}
+			}
+			if !traversed {
+				continue
+			}
+			nTrav++
+			e := phi.Edges[j]
+			if k, isConst := e.(*ssa.Const); isConst && k.Value != nil && k.Value.Kind() == constant.Bool {
+				if constant.BoolVal(k.Value) == truth {
+					nCand++
+					allAccepted = false // the constant alone yields this truth value
+				}
+				continue
+			}
+			nCand++
+			accepted := false
+			for _, f := range condFacts(e, truth) {
+				if p(f) {
+					accepted = true
+				}
+			}
+			if !accepted {
+				allAccepted = false
+			}
+		}
+		if nTrav == 0 {
+			return false
+		}
+		if nCand == 0 {
+			return true // no traversed way to make the condition take this value
+		}
+		return allAccepted
+	}
+	for changed := true; changed; {
+		changed = false
+		for e := range trav {
+			if t := e.from.Succs[e.idx]; !seen[t] {
+				seen[t] = true
+				changed = true
+			}
+		}
+		for blk := range seen {
+			for si := range blk.Succs {
+				if trav[edge{blk, si}] || cutEdge(blk, si) {
+					continue
+				}
+				trav[edge{blk, si}] = true
+				changed = true
+			}
+		}
+	}
+	return seen
 }
